@@ -1,0 +1,32 @@
+//go:build verif
+
+// Contracts for the deductive verifier in /verif (comment-only; compiled only with -tags verif).
+package ingressanalyzer
+
+//@ import corev1 "k8s.io/api/core/v1"
+//@ import intstr "k8s.io/apimachinery/pkg/util/intstr"
+
+// ---------------------------------------------------------------------------------------------
+// The service port a backend designates, and the pod port reached through it (C10)
+// ---------------------------------------------------------------------------------------------
+
+// the pod port reached through a service port: its targetPort (number or name), defaulting to the port itself
+//@ fun accessPort(sp corev1.ServicePort) intstr.IntOrString = if !(sp.TargetPort.IntVal == 0 && sp.TargetPort.StrVal == "") then sp.TargetPort
+//@     else svcPortDefault(sp.Port)
+//@ ufun svcPortDefault(p int) intstr.IntOrString
+// an Ingress backend designates a service port by the port's number or by its name
+//@ pred designates(sp corev1.ServicePort, req intstr.IntOrString) = (sp.Name != "" && sp.Name == req.StrVal) || sp.Port == req.IntVal
+
+//@ func getPeerAccessPort
+//@   ensures [C10] nonempty: (requiredPort.IntVal == 0 && requiredPort.StrVal == "") ==> len(res) == len(actualServicePorts)
+//@   ensures [C10] atmostone: !(requiredPort.IntVal == 0 && requiredPort.StrVal == "") ==> len(res) <= 1
+//@   ensures [C10] ingressdesignated: (!(requiredPort.IntVal == 0 && requiredPort.StrVal == "")
+//@         && (exists i int :: 0 <= i && i < len(actualServicePorts) && designates(actualServicePorts[i], requiredPort))) ==>
+//@         (len(res) == 1 && (exists i int :: 0 <= i && i < len(actualServicePorts) && designates(actualServicePorts[i], requiredPort)
+//@             && (forall j int :: {actualServicePorts[j]} (0 <= j && j < i) ==> !designates(actualServicePorts[j], requiredPort))
+//@             && (if !(actualServicePorts[i].TargetPort.IntVal == 0 && actualServicePorts[i].TargetPort.StrVal == "") then res[0] == actualServicePorts[i].TargetPort
+//@                 else (res[0].IntVal == actualServicePorts[i].Port && res[0].StrVal == ""))))
+//@   loop 1:
+//@     invariant acc: (requiredPort.IntVal == 0 && requiredPort.StrVal == "") == requiredPortEmpty
+//@     invariant cnt: requiredPortEmpty ==> len(res) == rangeindex + 1
+//@     invariant none: !requiredPortEmpty ==> (len(res) == 0 && (forall j int :: {actualServicePorts[j]} (0 <= j && j <= rangeindex) ==> !designates(actualServicePorts[j], requiredPort)))
